@@ -375,8 +375,53 @@ func VerifC07Value() {
 // every size class (empty, shorter, same, longer / pre-sized): the copy is equal and fully
 // independent — mutating a nested container on either side never shows on the other.
 func VerifC07MapNested() {
-	src := NewMap()
 	a, b := vNondetInt64("a"), vNondetInt64("b")
+	switch vChoice("scenario", 3) {
+	case 1:
+		// copy into a destination that was filtered with Remove (a non-last key, composite values): the copy
+		// equals the source and no two of its entries share an object
+		src := NewMap()
+		src.PutEmptySlice("l0").AppendEmpty().SetInt(a)
+		src.PutEmptyMap("o").PutInt("inner", b)
+		src.PutEmptySlice("l2").AppendEmpty().SetInt(b)
+		dst := NewMap()
+		dst.PutEmptySlice("p").AppendEmpty().SetInt(0)
+		dst.PutEmptyMap("q")
+		dst.PutEmptySlice("r").AppendEmpty().SetInt(0)
+		dst.Remove("p") // "r" moves into the first slot
+		src.CopyTo(dst)
+		get := func(m Map, k string) int64 {
+			v, ok := m.Get(k)
+			if !ok || v.Type() != ValueTypeSlice || v.Slice().Len() != 1 {
+				vAssert(false, "map-nested/removed-then-copied/copy-equals-source")
+				return 0
+			}
+			return v.Slice().At(0).Int()
+		}
+		vAssert(dst.Len() == 3 && get(dst, "l0") == a && get(dst, "l2") == b, "map-nested/removed-then-copied/copy-equals-source")
+		na := vNondetInt64("na")
+		if v, ok := dst.Get("l0"); ok && v.Type() == ValueTypeSlice && v.Slice().Len() == 1 {
+			v.Slice().At(0).SetInt(na)
+		}
+		vAssert(get(dst, "l0") == na && get(dst, "l2") == b, "map-nested/removed-then-copied/entries-of-the-copy-are-distinct-objects")
+		vAssert(get(src, "l0") == a && get(src, "l2") == b, "map-nested/removed-then-copied/source-independent-of-copy-mutation")
+		vReach("end")
+		return
+	case 2:
+		// MoveTo between two distinct maps that belong to one payload (they share its state)
+		root := NewMap()
+		ma := root.PutEmptyMap("a")
+		ma.PutInt("x", a)
+		mb := root.PutEmptyMap("b")
+		mb.PutInt("y", b)
+		ma.MoveTo(mb)
+		x, ok := mb.Get("x")
+		vAssert(mb.Len() == 1 && ok && x.Int() == a, "map-nested/move-within-one-payload/destination-holds-the-moved-content")
+		vAssert(ma.Len() == 0, "map-nested/move-within-one-payload/source-left-empty")
+		vReach("end")
+		return
+	}
+	src := NewMap()
 	src.PutEmptySlice("list").AppendEmpty().SetInt(a)
 	src.PutEmptyMap("obj").PutInt("inner", b)
 	src.PutEmptyBytes("raw").FromRaw([]byte{1, 2, 3})
